@@ -1,7 +1,7 @@
 (* Properties_C14_tagged_src.v — C14 for the bounded tagged reader, stated about
    src_varintTaggedGet, regenerated from the current src/varintTagged.c.  Loads
    are checked: reading outside the byte list is the outcome COob. *)
-Require Import VV.Base VV.Tagged VV.CSem VV.TaggedSrcProps.
+Require Import VV.Base VV.Tagged VV.CSem VV.TaggedSrcPropsGet.
 Require Import VVgen.Src_tagged.
 Local Open Scope Z_scope.
 
